@@ -83,8 +83,10 @@ def rand_key(rng):
         return (b"-" * rng.randrange(0, 30) + bytes(rng.choice(b"0123456789abcdefABCDEFxyz+") for _ in range(n)))[:70] or b"x"
     if fl < 0.6:
         return bytes(rng.choice(b"-\n x-ab") for _ in range(n)).strip(b" \n") or b"-"
-    if fl < 0.9:
+    if fl < 0.85:
         return bytes(rng.choice(TOKEN_CHARS) for _ in range(n))
+    if fl < 0.95:   # keys that must be sent as a quoted-string, starting/ending with the quoting characters themselves
+        return (bytes([rng.choice(b'""""\\\\;=,')]) + bytes(rng.choice(TOKEN_CHARS) for _ in range(n)) + bytes([rng.choice(b'"\\x')]))[:70]
     return bytes(rng.choice([c for c in range(1, 256) if c != 13]) for _ in range(n))
 
 
@@ -424,7 +426,8 @@ class Gen:
         for it in range(n):
             key, ct, parts, headers, body, _ = self.wf_case(True)
             b = bytearray(body)
-            op = rng.randrange(9)
+            extra_bodies = []
+            op = rng.randrange(10)
             if op == 0 and b:
                 b[rng.randrange(len(b))] = rng.randrange(256)
             elif op == 1 and b:
@@ -446,12 +449,20 @@ class Gen:
                 run = bytes(rng.choice(b"\r\n\r\nx") for _ in range(rng.randrange(2, 9)))
                 b = bytearray(b"--" + key + b"\r\nContent-Disposition: form-data; name=a" + run + rng.choice((b"", b"\r\n\r\n", b"\n\r\n")) +
                               b"data\r\n--" + key + b"--\r\n")
+            elif op == 8:   # damaged closing delimiter: every variant
+                if bytes(b).endswith(b"--\r\n"):
+                    closers = (b"--\n\n", b"--\r\r", b"--\r", b"-\r\n", b"--\r\n\r\n", b"--\n", b"--", b"\r\n", b"--\n\r", b"-x\r\n", b"--\r\n ", b"--\n\n\n")
+                    extra_bodies = [bytes(b[:-4]) + cl_ for cl_ in closers[1:]]
+                    b = b[:-4] + closers[0]
             else:           # boundary with CR inside (outside the theorems' guard; model and code must still agree)
                 key = rng.choice((b"x\r\n--xy", b"a\rb", b"\r", b"q\r\n--q"))
                 ct = b"multipart/form-data; boundary=" + quote(key)
                 delim = b"\r\n--" + key
                 data = rng.choice((b"\r\n--x", b"\r\n--q\r\n--", b"a\r", b"zz\r\n--a\r")) + bytes(rng.choice(b"\r\n-xq") for _ in range(rng.randrange(0, 8)))
                 b = bytearray(b"--" + key + b"\r\nContent-Disposition: form-data; name=a\r\n\r\n" + data + delim + b"--\r\n")
+            for xb in extra_bodies:
+                self.rq(0, ct, len(xb), len(xb) + 10, len(xb) + 10, 100, True, 64, b"", [xb], kind="rq-mal")
+                self.add("mp %s 100 1 %s" % (hx(ct), hx(xb)), kind="mp-mal")
             body2 = bytes(b)
             cl = len(body2)
             pts = cuts_random(rng, cl, rng.choice((0, 1, 2, 5)))
@@ -709,6 +720,14 @@ def main():
                     bad.append((k, "malformed urlencoded body: expected 400"))
             if kind == "rq-form" and not m.get("malformed") and m.get("body") is not None and cases[k].split()[3] != "-":
                 pass
+            if kind and kind.startswith("rq") and k < len(out_m) and not cs.startswith("rq 1 "):
+                # multipart_accept_iff / malformed_refused are proved of the model: a body the model refuses and the code
+                # delivers (or the other way round) is a failing input of "malformed is refused" / "well-formed is delivered"
+                hm = out_m[k].split(" get ")[0]
+                if hm.startswith("status 4") and head.startswith("status 200"):
+                    bad.append((k, "a body outside the accepted grammar (model: %s) is delivered with status 200" % hm))
+                elif hm.startswith("status 200") and head.startswith("status 4"):
+                    bad.append((k, "a body inside the accepted grammar is refused (%s)" % head[:12]))
             if m.get("group") is not None and kind and kind.startswith("rq"):
                 groups.setdefault(m["group"], []).append((k, head))
         # chunking independence on the real code: same bytes, same configuration -> same status and data
